@@ -1357,7 +1357,7 @@ class AwareASTNode(DataClassSerializeMixin):
                     else:
                         yield_queue.append(child)
 
-                if prune and prune(child):
+                if prune is not None and prune(child):
                     continue
             else:
                 skip_self = False
@@ -1398,7 +1398,7 @@ class AwareASTNode(DataClassSerializeMixin):
                 if filter is None or filter(child):
                     yield child
 
-                if prune and prune(child):
+                if prune is not None and prune(child):
                     continue
             else:
                 skip_self = False
